@@ -271,9 +271,26 @@ def n4_quotient(ctx) -> None:
             l, r = (d.left, d.right) if isinstance(d, ast.BinOp) else (d.args[0], d.args[1])
             if not (ap and cp and norm(l) == ap[0][1]["_M_ap"] and norm(r) == cp[0][1]["_M_cp"]):
                 okd = False
+        # every way out of _b hands back the quotient: a shortcut that returns A (or anything that was not divided) is right
+        # only while C is the constant 1, which says nothing about C's exponents (the statistics of the other factors)
+        undivided = False
+        qnames = {t.id for x in walk_local(h) for t, v in [PT.assign_value(x)] if isinstance(t, ast.Name) and v is not None
+                  and any(v is d or any(d is y for y in ast.walk(v)) for d in divs)}
+        for x in walk_local(h):
+            if isinstance(x, (ast.Assign,)) and isinstance(x.targets[0], ast.Tuple) and any(x.value is d for d in divs):
+                qnames |= {e.id for e in x.targets[0].elts[:1] if isinstance(e, ast.Name)}
+        for r in C.returns_of(h):
+            if r.value is None:
+                continue
+            src = {y.id for y in ast.walk(D.expanded(h, r.value)) if isinstance(y, ast.Name)}
+            if divs and not (src & qnames) and not any(any(d is y for y in ast.walk(r.value)) for d in divs):
+                okd = False
+                undivided = True
+                ctx.violation("N4", r, f"Quotient._b returns `{norm(r.value)[:50]}` on a path that never divides by C: the terms of the counted factor keep the statistics of the "
+                              "other factors (the division also subtracts their exponents), so every value lands on the wrong parameters")
         if okd:
             ctx.ok("N4", "quotient: B = A / C (A the dividend, C the divisor), as polynomials")
-        else:
+        elif not undivided:
             ctx.violation("N4", h, "Quotient._b must divide the polynomial of A by the polynomial of C (A // C)", construct="Quotient._b division")
     else:
         ctx.violation("N4", h, f"Quotient._b must compute A = self._a({n2}, {par2}, {ch3}) and C = self._c({ch3})", construct="Quotient._b operands")
